@@ -9,6 +9,24 @@ ENGINE_NOTE = ("Lean kernel; axioms propext/Classical.choice/Quot.sound; the eng
                "Lean driver and an independent naive least-model oracle; rustc, syn/quote, hash maps (C19), petgraph (validated by validOrder) and the "
                "evaluation of embedded Rust expressions (theorems hold for every interpretation) are modelled, not verified.")
 CLAIMS = {
+ "C12": dict(
+   engine="tie-B-engine",
+   technique="Lean 4 theorems (explicit-closure twin = reflexive transitive closure of the inserted tuples, all programs) + bug-faithful Lean models of the "
+             "trrel_uf provider and of the generated code over it, tied by compiled programs (tie B) and provider op sequences on the real types (tie C)",
+   text="Lean 4, kernel-checked for EVERY program, interpretation and input: in the least model of the explicit-closure twin the tagged relation is exactly the "
+        "reflexive (on mentioned elements) transitive closure, per key for the ternary form, of the tuples inserted by input and other rules, and other relations "
+        "are untouched (twin_binary_iff_closure, twin_ternary_iff_closure, twin_other_relations_untouched); with C01 this is what run() of the twin computes. "
+        "The real provider does NOT meet this in general: findings F8, F11, F12, F14, F17, F18 (panics and lost tuples for ternary relations and for reads inside a "
+        "looping stratum), each with a compiled witness and a decide-d witness on the provider model. PARTIAL: proved for the provider model only for a first batch "
+        "(provider_first_batch_contract_partial, provider_merge_never_new). Tie B: generated programs x inputs - one tagged relation in head and body positions, "
+        "non-recursive / multi-stratum / looping strata with scheduled arrivals, pausing keys, every access pattern - plain relations compared with the naive least "
+        "model of the twin, the Lean engine model on the twin, and the bug-faithful Lean model (exact agreement incl. panics). Tie C: two-batch histories over 3 "
+        "elements + PRNG histories on the real rel_ind_common types through the traits generated code uses, every view of delta and total after every merge, vs the "
+        "Lean provider model and a Floyd-Warshall contract oracle. A failure is attributed to a known finding only inside its class predicate and only when the "
+        "output equals the bug-faithful model's.",
+   design_ref="DESIGN.md §8 C12",
+   note="Lean kernel; axioms propext/Classical.choice/Quot.sound; provider and generated-code models hand-written statement by statement; hash iteration order "
+        "modelled as insertion order, the single order-dependent observation bracketed by two model runs; len_estimate modelled only where it panics."),
  "C02": dict(
    engine="tie-B-engine",
    technique="Lean 4 proof that the parallel iteration under EVERY schedule computes the least model (= the serial result) + perturbed parallel runs of compiled programs",
